@@ -136,7 +136,7 @@ PROPS.update({
               proj_name="C03: executions, scheduling, outputs, contents", known_match=known_if_model_agrees("K1", OB.c03)),
     "C04": mk("C04", [("bu", GB.case_bu, 1), ("bud", GB.case_bu_dense, 1)], 900, 20000,
               proj_lines(("op ", "ev execute_", "ev schedule_", "ev check_task_re", "out ", "abort ", "done", "bad-op")), OB.c04, [],
-              proj_name="C04: order of execute_start/end, schedule and scheduling-check events"),
+              proj_name="C04: order of execute_start/end, schedule and scheduling-check events", known_match=known_if_model_agrees("K7", OB.c04)),
     "C05": mk("C05", [("hid", GB.case_hidden, 3), ("ero", GB.case_erosion, 1), ("td", GB.case_td, 1)], 900, 20000,
               proj_lines(("op ", "out ", "abort ", "done", "skipped", "fs ", "st ", "bad-op")),
               lambda c, io: OB.dump_invariants(c, io, "C05") + OB.abort_content(c, io), [],
@@ -234,8 +234,8 @@ STATED_NOT_PROVED = {
     "C01": ["programs with writes: full statement (outputs and contents equal the from-scratch build) — proved for write-free programs (C01_sources); local theorems only for writes"],
     "C02": ["minimality w.r.t. the from-scratch build for exact checkers ('no task executed that a from-scratch build would not execute')",
             "idempotence for programs with writes"],
-    "C03": ["C03_sources / closure invariant of the bottom-up build (under ShallowReq and Reported)"],
-    "C04": ["at most one execution per task per bottom-up build (C04_bu_once)"],
+    "C03": ["programs with writes: the closure theorem C03_sources is proved for write-free programs (hypotheses ShallowReq, Reported incl. write stamps, NoOrphan)"],
+    "C04": ["C04_bu_once needs NoOrphan (no aborted task with leftover dependencies): without it the real code executes a task twice (finding K7)", "justification clause for programs with writes"],
     "C05": ["global clause 'a build that returns leaves every reader dependent on the generator' is false on the real code (finding K4; kernel-checked counterexample C05_history_breaks_noHidden)"],
     "C07": ["re-entry freedom inside bottom-up builds (only NoReservedDone is proved there)"],
     "C13": ["OS behaviour (metadata, read_dir order, stale handles) is modelled, not proved", "SHA-256 injectivity is a hypothesis"],
